@@ -1,19 +1,19 @@
 (* Proofs/C03_ReachFullEx.v - non-vacuity of C03_reachability_full: host functions that meet all five hypotheses
-   (HostWf, host_nonempty, IpWf, HostOK, IpOK) and a history of C02's Reachable3 with a query_pairs_mut session, a
+   (HostWf, host_nonempty, IpWf, HostOK, IpOKv) and a history of C02's Reachable3 with a query_pairs_mut session, a
    path_segments_mut session on an authority-less record, a path setter and a join. *)
 From RU Require Import Proofs.C15_Ser.
 From Coq Require Import String.
 From RU Require Import Base.Prelude Base.Utf8 Base.Outcome_c15 Model.HostT Model.UrlRecord Model.Parser Model.Setters Model.WF
   Model.FormUrlencoded Model.QueryPairs
   Proofs.ListN Proofs.C02_Reach Proofs.C02_AuthMain Proofs.C02_Hist Proofs.C02_SetHostCanon Proofs.C02_Reach3
-  Proofs.C05_Enc Proofs.C05_Parser Proofs.C05_Setters
+  Proofs.C05_Enc Proofs.C05_Parser Proofs.C05_Setters Proofs.C05_CompSteps3 Proofs.C05_Alphabet
   Proofs.C03_ReachParts Proofs.C03_ReachHost Proofs.C03_ReachEx Proofs.C03_AuthEnd Proofs.C03_ReachKnown.
 Open Scope string_scope.
 Open Scope N_scope.
 Open Scope list_scope.
 
 Lemma ex3_full_hyps :
-  HostWf ex_hp3 ex_hp ex_hd2 /\ host_nonempty ex_hp3 ex_hp /\ IpWf ex_hd2 /\ HostOK ex_hp3 ex_hp ex_hd2 /\ IpOK ex_hd2.
+  HostWf ex_hp3 ex_hp ex_hd2 /\ host_nonempty ex_hp3 ex_hp /\ IpWf ex_hd2 /\ HostOK ex_hp3 ex_hp ex_hd2 /\ IpOKv ex_hd2.
 Proof.
   destruct ex3_hyps as ((HRT & _) & HNE & HIP).
   assert (forall s h, ex_hp s = Ok h -> Forall ok_byte (ex_hd2 h)) as G.
